@@ -30,6 +30,7 @@ def run(ctx, rep):
     rep.rule("R10.3", "the finalizer returns the proxy's whole count; the owner subtracts exactly what it is told")
     rep.rule("R10.4", "the arithmetic of add/decref is consistent (removed <=> outstanding - returned <= 0) and runs under the lock")
     rep.rule("R10.5", "closing releases everything the connection held")
+    rep.rule("R10.6", "exports are counted and proxies are cached weakly (constructor table of the connection state)")
     rep.assume("races between a release notice and a reference in flight, GC timing and weakref callback order are not decided")
 
     # ------------------------------------------------------------------ R10.1
@@ -249,3 +250,4 @@ def run(ctx, rep):
            ctx.loc(ctor) if ctor is not None else "?", kind="site")
 
     K.share(ctx, rep, "c08", lambda o: o.rule == "R08.3" and "_seq_request_callback" in o.key, "R10.5", floor=3)
+    K.connection_state(ctx, rep, "R10.6", ["_local_objects", "_proxy_cache"])
